@@ -122,6 +122,13 @@ func (c *tcpConnectionActor) onReadConn(ctx vivid.ActorContext) (fatal bool, err
 	msgLen := binary.BigEndian.Uint32(lengthBuf)
 	if msgLen == 0 {
 		_, _ = c.Write(lengthBuf)
+		// 对端声明关闭（或确认了本端的关闭）：该连接到此为止。标记为已关闭并释放套接字——否则持有它的远程邮箱
+		// 看不到任何变化，会继续向一个再也无人读取的连接写入并"成功"：对端在同一进程内停止后重新启动时，
+		// 此后发往它的消息全部无声丢失，既不送达也不成为死信。
+		c.writeCloseLock.Lock()
+		c.closed = true
+		c.writeCloseLock.Unlock()
+		_ = c.conn.Close()
 		ctx.Kill(ctx.Ref(), false, "peer closed")
 		return false, nil
 	}
